@@ -1,8 +1,8 @@
 From Coq Require Import List Arith.
-From BQ Require Import map.Graph lib.Perm map.Sabre map.Placement map.Pam.
+From BQ Require Import map.Graph lib.Perm map.Sabre map.Placement map.Pam map.PamPipe map.SabreStrict.
 From Coq Require Extraction ExtrOcamlBasic.
 Extraction "sabre_model.ml" init do_step strict_ok replay routing_pass layout_pass
   apply_swap apply_perm compose_opt inverse
   pd_init set_model run_placer layout_on routing_on apply_placement pipeline connectivity
   static_search_ok can_exe front rear nexts prevs
-  pinit do_pstep pstrict_ok preplay pam_layout_on pam_routing_on.
+  pinit do_pstep pstrict_ok preplay pam_layout_on pam_routing_on pam_apply_placement pam_pipeline replay_strict.
